@@ -170,6 +170,13 @@ allows is a `diff`.
 -/
 namespace Trace
 
+structure Ev where
+  k : String
+  kind : String
+  iid : Nat
+  dn : DN
+  fs : List String
+
 /-- what the Spec evaluation remembers about the latest instance of a dn -/
 structure Rec where
   iid : Nat
@@ -186,7 +193,7 @@ structure St where
   id : String := ""
   name : String := ""
   P : Params := {}
-  worlds : List Sys := []
+  evs : Array Ev := #[]
   cancelReq : Bool := false
   capped : Bool := false
   recs : List Rec := []               -- every instance, newest first
@@ -196,17 +203,15 @@ structure St where
   quiesced : Bool := false
   verdict : Option String := none
   events : Nat := 0
-  maxWorlds : Nat := 0
+  searched : Nat := 0
 
 def setV (st : St) (v : String) : St :=
   match st.verdict with
   | some w => if w.startsWith "diff" && v.startsWith "spec" then { st with verdict := some v } else st
   | none => { st with verdict := some v }
 
-def worldCap : Nat := 3000
-
-def dedup (l : List Sys) : List Sys :=
-  (l.foldl (fun (acc : Std.HashSet Sys × List Sys) s => if acc.1.contains s then acc else (acc.1.insert s, s :: acc.2)) (({} : Std.HashSet Sys), [])).2.reverse
+/-- search budget (visited (event index, model state) pairs) per trace; beyond it the acceptance check is inconclusive -/
+def searchBudget : Nat := 400000
 
 def hiddenSucc (P : Params) (cancelReq : Bool) (s : Sys) : List Sys :=
   if s.killed then [] else
@@ -217,17 +222,6 @@ def hiddenSucc (P : Params) (cancelReq : Bool) (s : Sys) : List Sys :=
   let b := if (can fixedModel s.tree).isEmpty then [] else (step P fixedModel s .gc).toList
   let c := if cancelReq then (step P fixedModel s .kill).toList else []
   a ++ b ++ c
-
-/-- all states reachable by hidden processor steps (bounded by `worldCap`; `true` = bound hit) -/
-partial def closure (P : Params) (cancelReq : Bool) (front : List Sys) (seen : Std.HashSet Sys) (acc : List Sys) : List Sys × Bool :=
-  match front with
-  | [] => (acc, false)
-  | s :: rest =>
-    if seen.size > worldCap then (acc, true) else
-    let succ := (hiddenSucc P cancelReq s).filter fun x => !seen.contains x
-    let succ := dedup succ
-    let seen := succ.foldl (fun h x => h.insert x) seen
-    closure P cancelReq (rest ++ succ) seen (acc ++ succ)
 
 /-- the observable event applied to one model state (`none` = this state does not allow it) -/
 def applyEv (P : Params) (s : Sys) (kind : String) (iid : Nat) (dn : DN) (fs : List String) : Option Sys :=
@@ -271,6 +265,33 @@ def applyEv (P : Params) (s : Sys) (kind : String) (iid : Nat) (dn : DN) (fs : L
       | none => none
       | some e => some { s with live := s.live.erase i, pend := s.pend ++ [.died i.dn e] }
   | _ => some s
+
+structure Search where
+  seen : Std.HashSet (Nat × Sys) := {}
+  deepest : Nat := 0
+  capped : Bool := false
+
+/-- Depth-first search for ONE interleaving of hidden processor steps (`died`, `gc`, and `kill` once the harness
+has cancelled the supervisor context) under which the model produces the logged events in order.  Visited
+(event index, state) pairs are memoised, so a rejection means every reachable combination was tried. -/
+partial def dfs (P : Params) (evs : Array Ev) (crAt : Nat) (k : Nat) (s : Sys) : StateM Search Bool := do
+  let st ← get
+  if st.capped then return false
+  if st.seen.size > searchBudget then
+    set { st with capped := true }
+    return false
+  if st.seen.contains (k, s) then return false
+  set { st with seen := st.seen.insert (k, s), deepest := max st.deepest k }
+  if h : k < evs.size then
+    let e := evs[k]
+    match applyEv P s e.kind e.iid e.dn e.fs with
+    | some s1 => if (← dfs P evs crAt (k + 1) s1) then return true
+    | none => pure ()
+    for hs in hiddenSucc P (decide (crAt < k)) s do
+      if (← dfs P evs crAt k hs) then return true
+    return false
+  else
+    return true
 
 def isPrefix (p d : DN) : Bool := p.isPrefixOf d
 def properPrefix (p d : DN) : Bool := p.isPrefixOf d && p.length < d.length
@@ -342,8 +363,16 @@ def specEv (st : St) (kind : String) (iid : Nat) (dn : DN) (t : Nat) (fs : List 
 def traceLine (st : St) (op : String) (id : String) (fs : List String) : St × List String :=
   if op = "tr" then
     let P : Params := { initial := (kvNat fs "init").getD 0, max := (kvNat fs "max").getD 0 }
-    ({ id := id, name := (kv fs "name").getD "?", P := P, worlds := [init P] }, [])
+    ({ id := id, name := (kv fs "name").getD "?", P := P }, [])
   else if op = "end" then
+    -- acceptance: is there an interleaving of hidden processor steps under which the model yields this log?
+    let crAt := (st.evs.findIdx? (fun e => e.kind = "cancelreq")).getD st.evs.size
+    let (ok, sr) := (dfs st.P st.evs crAt 0 (init st.P)).run {}
+    let st := { st with capped := sr.capped, searched := sr.seen.size }
+    let st := if ok || sr.capped then st else
+      match st.evs[sr.deepest]? with
+      | some e => setV st s!"diff {id} trace rejected by the model: no interleaving of processor steps explains event {e.k} ({e.kind} iid={e.iid} dn={showDN e.dn} {e.fs.drop 5}) after the events before it ({sr.seen.size} model states tried, scenario {st.name})"
+      | none => setV st s!"diff {id} trace rejected by the model (scenario {st.name})"
     (st, [match st.verdict with | some v => v | none => s!"ok {id}"])
   else
     let kind := (kv fs "e").getD "?"
@@ -352,18 +381,7 @@ def traceLine (st : St) (op : String) (id : String) (fs : List String) : St × L
     let t := (kvNat fs "t").getD 0
     let st := { st with events := st.events + 1 }
     let st := specEv st kind iid dn t fs
-    -- acceptance
-    if st.capped || st.worlds.isEmpty then (st, []) else
-    let cr := st.cancelReq
-    let seen := st.worlds.foldl (fun (h : Std.HashSet Sys) x => h.insert x) {}
-    let (more, capped) := closure st.P cr st.worlds seen []
-    if capped then ({ st with capped := true }, []) else
-    let all := st.worlds ++ more
-    let next := dedup (all.filterMap fun s => applyEv st.P s kind iid dn fs)
-    let st := { st with worlds := next, maxWorlds := max st.maxWorlds all.length }
-    if next.isEmpty then
-      (setV st s!"diff {id} trace rejected by the model at event {(kv fs "k").getD "?"} ({kind} iid={iid} dn={showDN dn} {fs.drop 5}): none of {all.length} model states allows it (scenario {st.name})", [])
-    else (st, [])
+    ({ st with evs := st.evs.push { k := (kv fs "k").getD "?", kind := kind, iid := iid, dn := dn, fs := fs } }, [])
 
 end Trace
 
@@ -448,14 +466,14 @@ def step (st : St) (line : String) : St × List String :=
       let (t, outs) := Trace.traceLine st.tr op id fs
       let st := { st with tr := t }
       let st := if op = "end" then { st with traces := st.traces + 1, trEvents := st.trEvents + t.events,
-                                             trCapped := st.trCapped + (if t.capped then 1 else 0), trMaxWorlds := max st.trMaxWorlds t.maxWorlds } else st
+                                             trCapped := st.trCapped + (if t.capped then 1 else 0), trMaxWorlds := max st.trMaxWorlds t.searched } else st
       (st, outs)
     else simLine st op id fs line
   | _ => (st, [])
 
 def fin (st : St) : List String :=
   [s!"stat sim_cases {st.cases}", s!"stat sim_ops {st.ops}", s!"stat sim_gc_resets {st.gcResets}", s!"stat sim_panics {st.panics}",
-   s!"stat traces {st.traces}", s!"stat trace_events {st.trEvents}", s!"stat trace_search_capped {st.trCapped}", s!"stat trace_max_model_states {st.trMaxWorlds}"]
+   s!"stat traces {st.traces}", s!"stat trace_events {st.trEvents}", s!"stat trace_search_capped {st.trCapped}", s!"stat trace_max_search_nodes {st.trMaxWorlds}"]
 
 def run (h : IO.FS.Stream) : IO Unit := loop h ({} : St) step fin
 
